@@ -893,12 +893,8 @@ def invocation_histories(o, tier, gen, demo, dld, demos_nest):
         why = (f"invocation #{i + 1} ({hist[i]}) gets from mw.language.getContentLanguage() an object in state {got[i][:80]!r} where the "
                f"specification demands {exp_i!r}: the fields were written by an earlier invocation (same page or an earlier page) - the "
                "library hands out ONE object, a local of the retained module mw_language, for the whole life of the Lua runtime")
-        if obj_dev_listed:
-            o.classify(case, why, [OBJ_DEV], cls="invocation-history:" + OBJ_DEV)
-        else:       # candidate finding, not (yet) listed: counted in the evidence, see notes/C09.md
-            pending_obj["cases"] += 1
-            if "witness" not in pending_obj or len(case["history"]) < len(pending_obj["witness"]["history"]):
-                pending_obj["witness"] = dict(case, why=why)
+        # repaired in /repo (3431c97): not listed in known_findings.json, so classify() reports it as a VIOLATION if it returns
+        o.classify(case, why, [OBJ_DEV], cls="invocation-history:" + OBJ_DEV)
 
     def known_asis(origin, hist, rendering, i, got, exp_i):
         (known_obj if hist[i] in OBJ_KINDS else known_loaddata)(origin, hist, rendering, i, got, exp_i)
@@ -1004,12 +1000,8 @@ def invocation_histories(o, tier, gen, demo, dld, demos_nest):
                 why = (head + ": the page modules loaded by a nested #invoke stay in package.loaded for the rest of the top-level call "
                        "(only top-level invocations reset it), so a later nested #invoke using the same module meets the state - and "
                        "the environment - the earlier one left")
-                if nest_dev_listed:
-                    o.classify(dict(base, step=num), why, [NEST_DEV], cls="nested-program:" + NEST_DEV)
-                else:       # candidate finding, not (yet) listed: counted in the evidence, see notes/C09.md
-                    pending["cases"] += 1
-                    if "witness" not in pending or len(base["invocation"]) < len(pending["witness"]["invocation"]):
-                        pending["witness"] = dict(base, step=num, why=why)
+                # a finding only while known_findings.json lists the deviation; otherwise classify() reports a VIOLATION
+                o.classify(dict(base, step=num), why, [NEST_DEV], cls="nested-program:" + NEST_DEV)
                 continue
             key = (e["via"], e["k"])
             if key in untrusted or not nest_leaks(e, gs):
